@@ -7,6 +7,7 @@ import (
 
 	"github.com/cedar-policy/cedar-go/internal/consts"
 	"github.com/cedar-policy/cedar-go/internal/extensions"
+	"github.com/cedar-policy/cedar-go/types"
 	"github.com/cedar-policy/cedar-go/x/exp/ast"
 )
 
@@ -157,6 +158,20 @@ func marshalChildNode(thisNodePrecedence nodePrecedenceLevel, childAstNode ast.I
 	}
 }
 
+// marshalReceiverNode marshals the receiver of an attribute access or of a method call. A negative long is written
+// `-5`, which is a unary expression rather than a primary one, so as a receiver it needs parentheses: `(-5).foo`.
+func marshalReceiverNode(thisNodePrecedence nodePrecedenceLevel, receiverAstNode ast.IsNode, buf *bytes.Buffer) {
+	if v, ok := receiverAstNode.(ast.NodeValue); ok {
+		if l, ok := v.Value.(types.Long); ok && l < 0 {
+			buf.WriteRune('(')
+			astNodeToMarshalNode(receiverAstNode).marshalCedar(buf)
+			buf.WriteRune(')')
+			return
+		}
+	}
+	marshalChildNode(thisNodePrecedence, receiverAstNode, buf)
+}
+
 func (n NodeTypeNot) marshalCedar(buf *bytes.Buffer) {
 	buf.WriteRune('!')
 	marshalChildNode(n.precedenceLevel(), n.NodeTypeNot.Arg, buf)
@@ -180,7 +195,7 @@ func canMarshalAsIdent(s string) bool {
 }
 
 func (n NodeTypeAccess) marshalCedar(buf *bytes.Buffer) {
-	marshalChildNode(n.precedenceLevel(), n.Arg, buf)
+	marshalReceiverNode(n.precedenceLevel(), n.Arg, buf)
 
 	if canMarshalAsIdent(string(n.Value)) {
 		buf.WriteRune('.')
@@ -196,7 +211,7 @@ func (n NodeTypeExtensionCall) marshalCedar(buf *bytes.Buffer) {
 	var args []ast.IsNode
 	info := extensions.ExtMap[n.Name]
 	if info.IsMethod {
-		marshalChildNode(n.precedenceLevel(), n.Args[0], buf)
+		marshalReceiverNode(n.precedenceLevel(), n.Args[0], buf)
 		buf.WriteRune('.')
 		args = n.Args[1:]
 	} else {
@@ -214,40 +229,40 @@ func (n NodeTypeExtensionCall) marshalCedar(buf *bytes.Buffer) {
 }
 
 func (n NodeTypeContains) marshalCedar(buf *bytes.Buffer) {
-	marshalChildNode(n.precedenceLevel(), n.Left, buf)
+	marshalReceiverNode(n.precedenceLevel(), n.Left, buf)
 	buf.WriteString(".contains(")
 	marshalChildNode(n.precedenceLevel(), n.Right, buf)
 	buf.WriteRune(')')
 }
 
 func (n NodeTypeContainsAll) marshalCedar(buf *bytes.Buffer) {
-	marshalChildNode(n.precedenceLevel(), n.Left, buf)
+	marshalReceiverNode(n.precedenceLevel(), n.Left, buf)
 	buf.WriteString(".containsAll(")
 	marshalChildNode(n.precedenceLevel(), n.Right, buf)
 	buf.WriteRune(')')
 }
 
 func (n NodeTypeContainsAny) marshalCedar(buf *bytes.Buffer) {
-	marshalChildNode(n.precedenceLevel(), n.Left, buf)
+	marshalReceiverNode(n.precedenceLevel(), n.Left, buf)
 	buf.WriteString(".containsAny(")
 	marshalChildNode(n.precedenceLevel(), n.Right, buf)
 	buf.WriteRune(')')
 }
 
 func (n NodeTypeIsEmpty) marshalCedar(buf *bytes.Buffer) {
-	marshalChildNode(n.precedenceLevel(), n.Arg, buf)
+	marshalReceiverNode(n.precedenceLevel(), n.Arg, buf)
 	buf.WriteString(".isEmpty()")
 }
 
 func (n NodeTypeGetTag) marshalCedar(buf *bytes.Buffer) {
-	marshalChildNode(n.precedenceLevel(), n.Left, buf)
+	marshalReceiverNode(n.precedenceLevel(), n.Left, buf)
 	buf.WriteString(".getTag(")
 	marshalChildNode(n.precedenceLevel(), n.Right, buf)
 	buf.WriteRune(')')
 }
 
 func (n NodeTypeHasTag) marshalCedar(buf *bytes.Buffer) {
-	marshalChildNode(n.precedenceLevel(), n.Left, buf)
+	marshalReceiverNode(n.precedenceLevel(), n.Left, buf)
 	buf.WriteString(".hasTag(")
 	marshalChildNode(n.precedenceLevel(), n.Right, buf)
 	buf.WriteRune(')')
